@@ -607,35 +607,50 @@ func ruleEFF4(w *World) []Ob {
 			if pp.Cfg.Name == "W" && !wOnlyFunc(w, fn) {
 				continue
 			}
+			// functions that call validatePath: whenever the validation flag is set, every return must
+			// hand back validatePath's verdict (or another error); a nil return is allowed only on the
+			// flag's false side or where the node itself is nil
+			var vcalls []*ssa.Call
 			allInstrs(fn, func(in ssa.Instruction) {
-				c, ok := in.(*ssa.Call)
-				if !ok || c.Common().StaticCallee() == nil || c.Common().StaticCallee().Name() != "validatePath" {
+				if c, ok := in.(*ssa.Call); ok && c.Common().StaticCallee() != nil && c.Common().StaticCallee().Name() == "validatePath" {
+					vcalls = append(vcalls, c)
+				}
+			})
+			if len(vcalls) == 0 {
+				continue
+			}
+			node := vcalls[0].Common().Args[0]
+			construct := "validation coverage of returns"
+			var bad []string
+			allInstrs(fn, func(in ssa.Instruction) {
+				r, ok := in.(*ssa.Return)
+				if !ok || len(r.Results) == 0 {
 					return
 				}
-				construct := "guards of validatePath call"
-				var extra []string
-				flagGuard := false
-				for _, g := range guardsOf(c.Block()) {
+				ev := r.Results[len(r.Results)-1]
+				if !isErrorType(ev.Type()) {
+					return
+				}
+				if isValidateVerdict(ev, map[ssa.Value]bool{}) || nc.nonNil(ev, r, 0) {
+					return
+				}
+				for _, g := range guardsOf(r.Block()) {
 					cond, pol := flattenCond(g.Cond, g.Pol)
-					if ld, ok := isLoad(stripConv(cond)); ok {
-						if fa, ok := ld.(*ssa.FieldAddr); ok {
-							if _, f, _ := fieldOf(fa); f == "enabledValidation" && pol {
-								flagGuard = true
-								continue
-							}
-						}
+					if _, f, ok := fieldOfLoad(cond); ok && f == "enabledValidation" && !pol {
+						return
 					}
-					extra = append(extra, describeValue(cond)+"="+fmt.Sprint(pol))
 				}
-				if len(extra) > 0 {
-					l.bad(pp.FuncID(fn), construct, pp.InstrPos(c), "validatePath is called only under additional conditions ("+strings.Join(extra, ", ")+"): some nodes (e.g. roots) escape validation", "validate-call")
-				} else if !flagGuard {
-					l.ok(pp.FuncID(fn), construct, pp.InstrPos(c), "called unconditionally", true, "validate-call")
-				} else {
-					l.ok(pp.FuncID(fn), construct, pp.InstrPos(c), "guarded by the validation flag only", true, "validate-call")
+				if guardedNil(node, r) {
+					return
 				}
-				// the node validated is the node being assembled (first param of the enclosing function)
+				bad = append(bad, pp.InstrPos(r))
 			})
+			if len(bad) > 0 {
+				l.bad(pp.FuncID(fn), construct, pp.InstrPos(vcalls[0]), "with the validation flag set, the return(s) at "+strings.Join(bad, ", ")+" hand back nil without having called validatePath: some nodes (e.g. roots) escape validation", "validate-call")
+			} else {
+				l.ok(pp.FuncID(fn), construct, pp.InstrPos(vcalls[0]), fmt.Sprintf("%d validatePath call(s); every nil return lies on the flag's false side", len(vcalls)), true, "validate-call")
+			}
+			// callers must propagate this function's verdict: ERR-1 covers that
 		}
 		if pp.Cfg.Name == "W" {
 			continue
@@ -1471,4 +1486,25 @@ func ruleEFF8(w *World) []Ob {
 		l.undecided("cmd/gtree", "library output calls", "-", "none found", "writer")
 	}
 	return l.list
+}
+
+
+// isValidateVerdict: v is the result of a validatePath call (possibly through phis).
+func isValidateVerdict(v ssa.Value, seen map[ssa.Value]bool) bool {
+	if seen[v] {
+		return true
+	}
+	seen[v] = true
+	switch x := v.(type) {
+	case *ssa.Call:
+		return x.Common().StaticCallee() != nil && x.Common().StaticCallee().Name() == "validatePath"
+	case *ssa.Phi:
+		for _, e := range x.Edges {
+			if !isValidateVerdict(e, seen) {
+				return false
+			}
+		}
+		return true
+	}
+	return false
 }
